@@ -7,8 +7,9 @@
 // the generator's serialisation / the model's spent coins, and the raw files are decoded by the harness itself (own XOR,
 // own framing and checksum arithmetic). Then stored-data faults are applied to the files, one at a time (bit flip /
 // zeroed 512-byte sector / truncation, aimed at magic, size field, header, transaction bytes, undo framing, undo body,
-// undo checksum), everything is read again, and the damage is repaired; blocks with damaged records are forced to be
-// re-connected (invalidateblock -> damage -> reconsiderblock). Write-side faults (ENOSPC/EIO/short write/failed sync or
+// undo checksum), everything is read again, and the damage is repaired; for one record per run the faults are enumerated
+// (every byte of framing, header and checksum, every field boundary, every overlapping sector); blocks with damaged records
+// are forced to be re-connected (invalidateblock -> damage -> reconsiderblock). Write-side faults (ENOSPC/EIO/short write/failed sync or
 // fallocate during a block or undo write, or during the flush) are injected through simfs in a forked copy of the
 // harness process (a failed write may legitimately end in std::terminate), after which the parent restarts the node on
 // the directory the child left and reads every index entry again.
@@ -60,7 +61,10 @@ std::string Describe(const Op& op)
     }
     case K_FLUSH: snprintf(b, sizeof b, "flush(mode=%ld)", (long)op.mod(0, 3)); break;
     case K_RESTART: snprintf(b, sizeof b, "restart(clean)"); break;
-    case K_PRUNE: snprintf(b, sizeof b, "pruneblockchain(height#%ld)", (long)op.arg(0)); break;
+    case K_PRUNE:
+        if (op.arg(0) < 0) snprintf(b, sizeof b, "pruneblockchain(tip height)");
+        else snprintf(b, sizeof b, "pruneblockchain(height#%ld)", (long)op.arg(0));
+        break;
     case K_REDELIVER: snprintf(b, sizeof b, "redeliver(block#%ld, prefer_pruned=%ld)", (long)op.arg(0), (long)op.arg(1)); break;
     case K_DAMAGE:
         snprintf(b, sizeof b, "FAULT stored-data %s at %s of record#%ld (offset#%ld, bit %ld)%s", kDamageNames[op.mod(2, D_NKINDS)], kRegionNames[op.mod(1, R_NCLASSES)], (long)op.arg(0), (long)op.arg(3),
@@ -144,6 +148,21 @@ Plan Gen(uint64_t seed, Tier tier)
         case 4: op.kind = K_REDELIVER; op.a = {(int64_t)rng.below(100000), 1}; break;
         default: op.kind = K_READALL; op.a = {(int64_t)(rng.next() >> 24)}; break;
         }
+        p.ops.push_back(op);
+    }
+    if (prune) {
+        // make sure every pruning run prunes as far as allowed, stores a pruned block again and reads everything
+        Op op;
+        op.kind = K_PRUNE;
+        op.a = {-1};
+        p.ops.push_back(op);
+        op.kind = K_REDELIVER;
+        op.a = {(int64_t)rng.below(100000), 1};
+        p.ops.push_back(op);
+        op.a = {(int64_t)rng.below(100000), 1};
+        p.ops.push_back(op);
+        op.kind = K_PRUNE;
+        op.a = {(int64_t)rng.below(100000)};
         p.ops.push_back(op);
     }
     if (faults && rng.chance(thorough ? 3 : 1, 3)) {
@@ -783,7 +802,11 @@ struct Store {
     void OpEnumerate(const Op& op)
     {
         if (!ctx.knob("faults", 1)) return;
-        Target t0 = Locate((uint64_t)op.arg(0), R_MAGIC, 0, nullptr);
+        // a record of moderate size (every evaluation reads the record and its neighbours several times)
+        std::vector<int> moderate;
+        for (int i = 0; i < (int)cs.ref->blocks.size(); ++i)
+            if (BlockBytes(i).size() <= 20000) moderate.push_back(i);
+        Target t0 = Locate((uint64_t)op.arg(0), R_MAGIC, 0, &moderate);
         if (!t0.ok) return;
         const int b = t0.block;
         const size_t spread = (size_t)std::clamp<int64_t>(op.arg(2), 4, 256);
@@ -1007,9 +1030,9 @@ struct Store {
                 }
             }
             if (fatal) ctx.probe("fatal_error_raised_on_damaged_block");
-            bool any_hit = false;
-            for (auto& h : hits) any_hit |= h.changed;
-            if (fatal && !any_hit) FailIfFatal("reconsiderblock on an undamaged branch");
+            // (the damage may also have hit a record of the competing branch that became active after the invalidation: then the
+            // reorganisation back fails loudly with "Failed to disconnect block")
+            if (fatal && !(applied && d.AnyChange())) FailIfFatal("reconsiderblock on an undamaged store");
             ctx.evf("reconsider -> tip_h=%d fatal=%d", cs.node->Height(), fatal);
             if (!hits.empty()) ctx.nontrivial = true;
         }
@@ -1340,7 +1363,7 @@ struct Store {
                 break;
             case K_PRUNE: {
                 if (!prune_mode) break;
-                int h = 1 + (int)op.mod(0, (uint64_t)std::max(1, cs.node->Height()));
+                int h = op.arg(0) < 0 ? cs.node->Height() : 1 + (int)op.mod(0, (uint64_t)std::max(1, cs.node->Height()));
                 PruneBlockFilesManual(cs.node->cs(), h);
                 bool pruned = WITH_LOCK(cs_main, return bm().m_have_pruned);
                 if (pruned) ctx.probe("pruned_files");
@@ -1409,20 +1432,22 @@ Engine MakeEngine()
     e.run = Run;
     e.describe = Describe;
     e.chunk = 1;
-    e.quick_runs = 300;
-    e.thorough_runs = 6000;
+    e.quick_runs = 280;
+    e.thorough_runs = 2500;
     e.quick_budget_s = 50;
     e.thorough_budget_s = 900;
     e.run_timeout_s = 400;
-    e.rule = "each run = one on-disk regtest node with 64 KiB -fastprune block files and a random blocksdir XOR key: base chain (101-118 blocks, 292-306 padded blocks in the 1/6 of runs with manual pruning), then 4-15 workload operations "
-             "(batches of 2-60 generated blocks of 200 B - 260 KB (thorough: - 940 KB) with 0-4 signed transactions, announced by headers and delivered in order / reversed / shuffled / odd-then-even so that undo data is written "
-             "later and in another order than block data; reorg branches; flushes; clean restarts; pruneblockchain; re-delivery of pruned blocks), then (7/8 of runs) 6-40 fault operations: a stored-data fault "
-             "{flip one bit, zero a 512-byte sector, truncate the file} aimed at {magic, size field, header, transaction bytes, undo framing, undo body, undo checksum, anywhere} of a seeded record, applied under the running node or "
-             "on the stopped node followed by a restart, read back and repaired; invalidateblock -> damage a disconnected block -> reconsiderblock (forced re-connection from the damaged record) -> repair -> reconnect; a "
-             "write-side fault {ENOSPC, EIO, short write, EIO on fsync, ENOSPC on fallocate} at the n-th file operation of a ProcessNewBlock or of the flush, executed in a forked copy of the process, followed by a restart "
-             "of the parent's node on the directory left behind. After every operation the touched index entries, every entry sharing a file with a fault and a seeded sample (after restarts, pruning and write faults: every "
-             "entry) are read back through ReadBlock(index), ReadBlock(position), ReadRawBlock (whole, 3 parts, 2 illegal parts) and ReadBlockUndo and decoded from the raw file by the harness. non-trivial = at least one batch "
-             "was stored and read back; distinct = distinct (tip, #blocks, stored set, highest tip, fault kinds so far) fingerprints.";
+    e.rule = "each run = one on-disk regtest node with 64 KiB -fastprune block files and a random blocksdir XOR key: base chain (101-118 blocks; 292-306 padded blocks in the 1/6 of runs with manual pruning), then 4-15 workload "
+             "operations (batches of 2-60 generated blocks of 200 B - 260 KB (thorough: - 940 KB) with 0-4 signed transactions, announced by headers and delivered in order / reversed / shuffled / odd-then-even so that undo data is "
+             "written later and in another order than block data; reorg branches; flushes; clean restarts; pruneblockchain; re-delivery of pruned blocks), then in 7/8 of the runs (knob faults): [1/3 of quick runs, every thorough run] "
+             "the enumeration of one record - one bit flip at EVERY byte of magic, size field, header, undo framing and undo checksum, at 32 (thorough 96) spread transaction bytes and undo body bytes, a truncation at every field "
+             "boundary and the zeroing of every overlapping 512-byte sector - and 6-40 seeded fault operations: a stored-data fault {flip one bit, zero a 512-byte sector, truncate the file} aimed at {magic, size field, header, "
+             "transaction bytes, undo framing, undo body, undo checksum, anywhere} of a seeded record, applied under the running node or on the stopped node followed by a restart, read back and repaired; invalidateblock -> damage a "
+             "disconnected block -> reconsiderblock (forced re-connection from the damaged record) -> repair -> reconnect; a write-side fault {ENOSPC, EIO, short write, EIO on fsync, ENOSPC on fallocate} at the n-th file operation "
+             "of a ProcessNewBlock or of the flush, executed in a forked copy of the process, followed by a restart of the parent's node on the directory left behind. After every operation the touched index entries, every entry "
+             "sharing a file with a fault and a seeded sample (after restarts, pruning and write faults: every entry) are read back through ReadBlock(index), ReadBlock(position), ReadRawBlock (whole, 3 parts, 2 illegal parts) and "
+             "ReadBlockUndo and decoded from the raw file by the harness. The probes index_entries_read and enumerated_faults count the evaluations inside the runs. non-trivial = at least one batch was stored and read back; "
+             "distinct = distinct (tip, #blocks, stored set, highest tip, fault kinds so far) fingerprints (first 64 per run).";
     e.real_components = {"BlockManager: WriteBlock/ReadBlock/ReadRawBlock/WriteBlockUndo/ReadBlockUndo, FindNextBlockPos/FindUndoPos, FlushBlockFile, PruneOneBlockFile/UnlinkPrunedFiles, block index DB", "FlatFileSeq (Open/Allocate/Flush)",
                          "AutoFile/BufferedWriter/BufferedReader/HashVerifier with Obfuscation", "CBlockUndo/TxInUndoFormatter/TxOutCompression serialisation",
                          "Chainstate: AcceptBlock, ConnectTip/ConnectBlock/DisconnectTip from stored records, InvalidateBlock/ResetBlockFailureFlags, FlushStateToDisk, LoadChainstate + VerifyDB level 3 on restart", "LevelDB"};
@@ -1435,7 +1460,7 @@ Engine MakeEngine()
     e.expected_probes = {"full_readback", "out_of_order_arrival", "reorg_branch", "block_larger_than_blockfile", "nonempty_undo_compared", "clean_restart", "pruned_files", "pruned_block_stored_again", "xor_key_nonzero",
                          "magic_damage_reported", "header_damage_reported", "size_damage_reported", "size_increase_fits_in_file", "undo_body_damage_reported", "undo_checksum_damage_reported", "tx_damage_read_returns_altered_block",
                          "damaged_block_not_connected", "fatal_error_raised_on_damaged_block", "reconnected_after_repair", "start_refused_on_damaged_store", "write_error_surfaced", "stored_bit_flip", "stored_sector_zeroed",
-                         "stored_file_truncated", "write_enospc", "write_eio", "write_short"};
+                         "stored_file_truncated", "write_enospc", "write_eio", "write_short", "block_record_enumerated", "undo_record_enumerated", "pruned_entry_read_fails"};
     return e;
 }
 Engine g_engine = MakeEngine();
